@@ -61,7 +61,7 @@ fn expect_ok<T>(r: &Result<T, DeError>, used: usize, want_used: usize) -> bool {
 //   reference None          => real Err                     (truncation, negative length, bad index...)
 // plus Kani's built-in checks on the real code (no panic / overflow / out-of-bounds, loops bounded).
 
-// @harness props=C03,C01,C04 tier=quick timeout=900
+// @harness props=C03,C04 also=C01 tier=quick timeout=900
 // @bound long: every byte string of length 0..=11; unwind 13
 #[kani::proof]
 #[kani::unwind(13)]
@@ -87,7 +87,7 @@ fn c03_diff_long() {
 }
 
 // Reachability twin: must come back VIOLATED (the runner treats SUCCESS here as a broken check)
-// @harness props=C03,C01,C04,C12 tier=quick timeout=600 expect=fail
+// @harness props=C01,C03,C04,C12 tier=quick timeout=600 expect=fail
 // @bound same as c03_diff_long
 #[kani::proof]
 #[kani::unwind(13)]
@@ -101,7 +101,7 @@ fn twin_dec_long() {
 	std::mem::forget(r);
 }
 
-// @harness props=C03,C01,C04 tier=quick timeout=900
+// @harness props=C03,C04 also=C01 tier=quick timeout=900
 // @bound int: every byte string of length 0..=6 (values needing more than 32 bits: no assertion on the value)
 #[kani::proof]
 #[kani::unwind(13)]
@@ -124,33 +124,43 @@ fn c03_diff_int() {
 	std::mem::forget(r);
 }
 
-// @harness props=C03,C01 tier=quick timeout=600
-// @bound all i32 under date / all i64 under timestamp-micros (logical types share the int/long arms), minimal varint
-#[kani::proof]
-#[kani::unwind(12)]
-#[kani::stub(alloc::fmt::format, crate::verif::stub_format)]
-fn c03_dec_logical_int_long() {
+fn logical32(node: &'static SchemaNode<'static>) {
 	let v: i32 = kani::any();
 	let mut e = Enc::<10>::new();
 	e.long(v as i64);
-	let (r, used) = de_slice::<i32>(&nodes::DATE, e.bytes());
+	let (r, used) = de_slice::<i32>(node, e.bytes());
 	match &r {
-		Ok(back) => assert!(*back == v && used == e.len, "c03_dec_date: wrong value or length"),
-		Err(_) => assert!(false, "c03_dec_date: valid encoding rejected"),
+		Ok(back) => assert!(*back == v && used == e.len, "c03_dec_logical: wrong value or length (int-based logical type)"),
+		Err(_) => assert!(false, "c03_dec_logical: valid encoding rejected (int-based logical type)"),
 	}
 	std::mem::forget(r);
+}
+fn logical64(node: &'static SchemaNode<'static>) {
 	let w: i64 = kani::any();
 	let mut e = Enc::<10>::new();
 	e.long(w);
-	let (r, used) = de_slice::<i64>(&nodes::TS_MICROS, e.bytes());
+	let (r, used) = de_slice::<i64>(node, e.bytes());
 	match &r {
-		Ok(back) => assert!(*back == w && used == e.len, "c03_dec_ts_micros: wrong value or length"),
-		Err(_) => assert!(false, "c03_dec_ts_micros: valid encoding rejected"),
+		Ok(back) => assert!(*back == w && used == e.len, "c03_dec_logical: wrong value or length (long-based logical type)"),
+		Err(_) => assert!(false, "c03_dec_logical: valid encoding rejected (long-based logical type)"),
 	}
 	std::mem::forget(r);
 }
 
 // @harness props=C03,C01 tier=quick timeout=600
+// @bound every i32 under date and time-millis; every i64 under time-micros, timestamp-millis, timestamp-micros (minimal varints)
+#[kani::proof]
+#[kani::unwind(12)]
+#[kani::stub(alloc::fmt::format, crate::verif::stub_format)]
+fn c03_dec_logical_int_long() {
+	logical32(&nodes::DATE);
+	logical32(&nodes::TIME_MILLIS);
+	logical64(&nodes::TIME_MICROS);
+	logical64(&nodes::TS_MILLIS);
+	logical64(&nodes::TS_MICROS);
+}
+
+// @harness props=C03 also=C01 tier=quick timeout=600
 // @bound boolean: every byte 0..=255 (0/1 -> value, others -> Err); float all 2^32 bit patterns; double all 2^64 bit patterns (compared by bits); null
 #[kani::proof]
 #[kani::unwind(10)]
@@ -188,7 +198,7 @@ fn c03_dec_fixed_width() {
 	std::mem::forget(r);
 }
 
-// @harness props=C03,C01,C04 tier=quick timeout=900
+// @harness props=C03,C04 also=C01 tier=quick timeout=900
 // @bound bytes: every byte string of length 0..=7; Ok result must borrow from the input at the right offset
 #[kani::proof]
 #[kani::unwind(13)]
@@ -215,7 +225,7 @@ fn c03_diff_bytes() {
 	std::mem::forget(r);
 }
 
-// @harness props=C03,C01 tier=quick timeout=900
+// @harness props=C03 also=C01 tier=quick timeout=900
 // @bound string and uuid: 0..=3 bytes of well-formed UTF-8 (1-, 2-, 3-byte sequences) -> borrowed &str into the input; real core::str::from_utf8
 #[kani::proof]
 #[kani::unwind(8)]
@@ -265,7 +275,7 @@ fn c03_bad_utf8() {
 	std::mem::forget(r);
 }
 
-// @harness props=C03,C01,C04 tier=quick timeout=900
+// @harness props=C03,C04 also=C01 tier=quick timeout=900
 // @bound string: every byte string of length 0..=6 (UTF-8 verdict taken from the reference validator: core::str::from_utf8 stubbed by it)
 #[kani::proof]
 #[kani::unwind(13)]
@@ -292,7 +302,7 @@ fn c03_diff_string() {
 	std::mem::forget(r);
 }
 
-// @harness props=C03,C01 tier=quick timeout=600
+// @harness props=C03 also=C01 tier=quick timeout=600
 // @bound fixed(3): all contents and every shorter input (-> Err)
 #[kani::proof]
 #[kani::unwind(8)]
@@ -311,7 +321,7 @@ fn c03_dec_fixed() {
 	std::mem::forget(r);
 }
 
-// @harness props=C03,C01 tier=quick timeout=600
+// @harness props=C03 also=C01 tier=quick timeout=600
 // @bound duration: all 3 x u32 as (u32,u32,u32), and every input shorter than 12 bytes (-> Err)
 #[kani::proof]
 #[kani::unwind(14)]
@@ -332,7 +342,7 @@ fn c03_dec_duration_tuple() {
 	std::mem::forget(r);
 }
 
-// @harness props=C03,C01 tier=quick timeout=600
+// @harness props=C03 also=C01 tier=quick timeout=600
 // @bound duration: all 3 x u32 as struct {months, days, milliseconds} and as 12 raw borrowed bytes
 #[kani::proof]
 #[kani::unwind(14)]
@@ -357,7 +367,7 @@ fn c03_dec_duration_struct_bytes() {
 	std::mem::forget(r);
 }
 
-// @harness props=C03,C01,C04 tier=quick timeout=900
+// @harness props=C03,C04 also=C01 tier=quick timeout=900
 // @bound decimal(bytes, scale 0): every byte string of length 0..=6 against the reference (payload <= 5 bytes), i128 hint
 #[kani::proof]
 #[kani::unwind(19)]
@@ -381,7 +391,7 @@ fn c03_diff_decimal_bytes() {
 	std::mem::forget(r);
 }
 
-// @harness props=C03,C01 tier=thorough timeout=1800
+// @harness props=C03 also=C01 tier=thorough timeout=1800
 // @bound decimal(bytes, scale 0): payload length 0..=16, all contents, i128 hint == sign-extended two's complement; length 17 -> Err
 #[kani::proof]
 #[kani::unwind(20)]
@@ -417,7 +427,7 @@ fn dec_fixed_case(n: usize, node: &'static SchemaNode<'static>) {
 	std::mem::forget(r);
 }
 
-// @harness props=C03,C01 tier=quick timeout=900
+// @harness props=C03 also=C01 tier=quick timeout=900
 // @bound decimal(fixed n, scale 0) for n in {0,1,2}: all contents, i128 hint
 #[kani::proof]
 #[kani::unwind(20)]
@@ -431,7 +441,7 @@ fn c03_dec_decimal_fixed_small() {
 	dec_fixed_case(2, d2);
 }
 
-// @harness props=C03,C01 tier=quick timeout=900
+// @harness props=C03 also=C01 tier=quick timeout=900
 // @bound decimal(fixed 16): all contents; decimal(fixed 17) -> Err (documented 16-byte limit), never a value
 #[kani::proof]
 #[kani::unwind(20)]
@@ -443,7 +453,7 @@ fn c03_dec_decimal_fixed_16_17() {
 	dec_fixed_case(17, d17);
 }
 
-// @harness props=C03,C01 tier=thorough timeout=2400
+// @harness props=C03 also=C01 tier=thorough timeout=2400
 // @bound big-decimal framing: inner payload 0..=3 bytes, scale 0, outer length exact -> value; outer length off by one -> Err
 #[kani::proof]
 #[kani::unwind(12)]
@@ -478,7 +488,7 @@ fn c03_dec_bigdecimal() {
 	std::mem::forget(r);
 }
 
-// @harness props=C03,C01 tier=quick timeout=900
+// @harness props=C03 also=C01 tier=quick timeout=900
 // @bound enum {a,b,cc}: every i64 index: 0..3 decodes to its symbol; every other index -> Err
 #[kani::proof]
 #[kani::unwind(12)]
@@ -544,7 +554,7 @@ fn ref_array_long(d: &mut spec::Dec, out: &mut [i64; 3], n: &mut usize, over: &m
 	}
 }
 
-// @harness props=C03,C01,C04 tier=quick timeout=1800
+// @harness props=C03,C04 also=C01 tier=quick timeout=1800
 // @bound array<long>: every byte string of length 0..=6 (covers every block split, negative counts with byte sizes, truncations, hostile counts); arrays of more than 3 items are outside
 #[kani::proof]
 #[kani::unwind(10)]
@@ -616,7 +626,7 @@ fn union_discriminant_case<const K: usize>(u: &'static SchemaNode<'static>, vars
 	std::mem::forget(r);
 }
 
-// @harness props=C03,C01,C04 tier=quick timeout=1200
+// @harness props=C03,C04 also=C01 tier=quick timeout=1200
 // @bound union branch selection, 2- and 3-branch unions: every byte string of length 0..=11 (all i64 indexes, truncations): selected node == variants[index] iff 0 <= index < n, else Err
 #[kani::proof]
 #[kani::unwind(13)]
@@ -631,8 +641,31 @@ fn c03_union_discriminant() {
 // =============================================================================================
 // C04: resource limits
 
-// @harness props=C04 tier=quick timeout=1200
-// @bound array<null> (zero-byte items: the count is the only bound): every byte string of length 0..=4, max_seq_size symbolic 0..=3; more items than max_seq_size must be an error and the work done must not follow the number written in the input (unwind 7 would be exceeded otherwise)
+/// reference decode of array<null>: total item count (saturating), None = invalid encoding
+fn ref_array_null(d: &mut spec::Dec) -> Option<u64> {
+	let mut total: u64 = 0;
+	let mut blocks = 0;
+	loop {
+		if blocks > d.data.len() {
+			return None;
+		}
+		blocks += 1;
+		let mut size = None;
+		let c = d.block_count(&mut size)?;
+		if c == 0 {
+			return Some(total);
+		}
+		if let Some(sz) = size {
+			if sz != 0 {
+				d.noncanon = true;
+			}
+		}
+		total = total.saturating_add(c);
+	}
+}
+
+// @harness props=C04,C03 tier=quick timeout=1200
+// @bound array<null> (zero-byte items: the count is the only bound): every byte string of length 0..=4, max_seq_size symbolic 0..=3, against the reference decoder: valid and within the limit => Ok with that many items; more items than max_seq_size (also when split over several blocks) => Err; the work done must not follow the number written in the input (unwind 7 would be exceeded otherwise)
 #[kani::proof]
 #[kani::unwind(7)]
 #[kani::stub(alloc::fmt::format, crate::verif::stub_format)]
@@ -643,12 +676,21 @@ fn c04_array_null_max_seq_size() {
 	kani::assume(len <= 4);
 	let max: usize = kani::any();
 	kani::assume(max <= 3);
-	let (r, used) = de_slice_cfg::<Seq<(), 4>>(arr, &data[..len], max, 64);
+	let s = &data[..len];
+	let mut d = spec::Dec::new(s);
+	let want = ref_array_null(&mut d);
+	let (r, used) = de_slice_cfg::<Seq<(), 4>>(arr, s, max, 64);
 	kani::cover!(r.is_ok() && max == 3);
 	kani::cover!(r.is_err() && len == 4 && data[0] == 0xfe);
-	if let Ok(s) = &r {
-		assert!(s.len <= max, "c04: sequence longer than max_seq_size was produced");
-		assert!(used <= len, "c04: consumed more than the input");
+	kani::cover!(r.is_ok() && data[0] == 1 && data[1] == 0);
+	match (&r, want) {
+		(Ok(v), Some(n)) => {
+			assert!(v.len <= max, "c04: sequence longer than max_seq_size was produced");
+			assert!(v.len as u64 == n && used == d.pos, "c04: item count/length differs from the reference decoder");
+		}
+		(Ok(_), None) => assert!(false, "c04: invalid array encoding produced a value"),
+		(Err(_), Some(n)) => assert!(d.noncanon || n > max as u64, "c04: valid array within max_seq_size rejected"),
+		(Err(_), None) => {}
 	}
 	std::mem::forget(r);
 }
@@ -907,6 +949,44 @@ fn c12_skip_varints() {
 }
 
 // @harness props=C12 tier=quick timeout=1200
+// @bound logical types over int/long (date, time-millis, time-micros, timestamp-millis, timestamp-micros): every byte string 0..=11 (values needing more than 32 bits for the int-based ones are outside)
+#[kani::proof]
+#[kani::unwind(13)]
+#[kani::stub(alloc::fmt::format, crate::verif::stub_format)]
+fn c12_skip_logical() {
+	let data: [u8; 11] = kani::any();
+	let len: usize = kani::any();
+	kani::assume(len <= 11);
+	let s = &data[..len];
+	let mut d = spec::Dec::new(s);
+	let _ = d.int();
+	let canonical32 = !d.noncanon;
+	skip_vs_read::<i32>(&nodes::DATE, s, canonical32);
+	skip_vs_read::<i32>(&nodes::TIME_MILLIS, s, canonical32);
+	skip_vs_read::<i64>(&nodes::TIME_MICROS, s, true);
+	skip_vs_read::<i64>(&nodes::TS_MILLIS, s, true);
+	skip_vs_read::<i64>(&nodes::TS_MICROS, s, true);
+}
+
+// @harness props=C12 tier=quick timeout=1200
+// @bound decimal over bytes and decimal over fixed(2) / fixed(4): every byte string 0..=6: skipping consumes what reading (i128 hint) consumes
+#[kani::proof]
+#[kani::unwind(19)]
+#[kani::stub(alloc::fmt::format, crate::verif::stub_format)]
+fn c12_skip_decimal() {
+	crate::verif::stack_node!(db = nodes::dec_bytes(0));
+	crate::verif::stack_node!(d2 = nodes::dec_fixed(2, 0));
+	crate::verif::stack_node!(d4 = nodes::dec_fixed(4, 0));
+	let data: [u8; 6] = kani::any();
+	let len: usize = kani::any();
+	kani::assume(len <= 6);
+	let s = &data[..len];
+	skip_vs_read::<I128Hint>(db, s, true);
+	skip_vs_read::<I128Hint>(d2, s, true);
+	skip_vs_read::<I128Hint>(d4, s, true);
+}
+
+// @harness props=C12 tier=quick timeout=1200
 // @bound bytes and string (skipped without UTF-8 validation): every byte string 0..=6
 #[kani::proof]
 #[kani::unwind(9)]
@@ -1004,3 +1084,380 @@ fn c12_skip_array_neg_neg() {
 	skip_array_case(arr, &[1, 2, v[0], 3, 4, v[1], v[2], 0]);
 }
 
+
+// =============================================================================================
+// C02 / C01: union branch names. The name the DEserializer offers for a branch (what a Rust enum
+// variant must be called to receive it) must select the same branch when the SERIALIZER looks the
+// variant name up in the table built by the real `PerTypeLookup::new` (cross-module consistency).
+
+fn offered_name(node: &'static SchemaNode<'static>) -> OStr<20> {
+	let mut st = DeserializerState::from_schema_node(SliceRead::new(&[]), nodes::nref(node));
+	let access = SchemaTypeNameEnumAccess { state: &mut st, variant_schema: node, allowed_depth: AllowedDepth::new(4) };
+	let r = serde::de::EnumAccess::variant_seed(access, std::marker::PhantomData::<OStr<20>>);
+	match r {
+		Ok((name, _variant)) => name,
+		Err(e) => {
+			std::mem::forget(e);
+			assert!(false, "c02_union_names: deserializer offers no name for this branch");
+			OStr::default()
+		}
+	}
+}
+
+fn name_roundtrip(u: &'static SchemaNode<'static>, idx: i64, branch: &'static SchemaNode<'static>) {
+	let offered = offered_name(branch);
+	// SAFETY: names are ASCII
+	let s = unsafe { std::str::from_utf8_unchecked(offered.0.bytes()) };
+	let un = match u {
+		SchemaNode::Union(un) => un,
+		_ => unreachable!(),
+	};
+	match un.per_type_lookup.named(s) {
+		Some((i, n)) => assert!(i == idx && std::ptr::eq(n, branch), "c02_union_names: the offered variant name selects a different branch when serializing"),
+		None => assert!(false, "c02_union_names: the variant name the deserializer offers is unknown to the serializer's union lookup"),
+	}
+}
+
+// @harness props=C02 also=C01 tier=quick timeout=1800
+// @bound union [null, long]: for both branches, offered name -> lookup -> same branch (table built by the real PerTypeLookup::new)
+#[kani::proof]
+#[kani::unwind(22)]
+#[kani::stub(alloc::fmt::format, crate::verif::stub_format)]
+fn c02_union_names_null_long() {
+	crate::verif::union_node!(u = [&nodes::NULL, &nodes::LONG]);
+	name_roundtrip(u, 0, &nodes::NULL);
+	name_roundtrip(u, 1, &nodes::LONG);
+}
+
+// @harness props=C02 also=C01 tier=thorough timeout=1800
+// @bound union [boolean, int]: for both branches, offered name -> lookup -> same branch (table built by the real PerTypeLookup::new)
+#[kani::proof]
+#[kani::unwind(22)]
+#[kani::stub(alloc::fmt::format, crate::verif::stub_format)]
+fn c02_union_names_boolean_int() {
+	crate::verif::union_node!(u = [&nodes::BOOLEAN, &nodes::INT]);
+	name_roundtrip(u, 0, &nodes::BOOLEAN);
+	name_roundtrip(u, 1, &nodes::INT);
+}
+
+// @harness props=C02 also=C01 tier=thorough timeout=1800
+// @bound union [float, double]: for both branches, offered name -> lookup -> same branch (table built by the real PerTypeLookup::new)
+#[kani::proof]
+#[kani::unwind(22)]
+#[kani::stub(alloc::fmt::format, crate::verif::stub_format)]
+fn c02_union_names_float_double() {
+	crate::verif::union_node!(u = [&nodes::FLOAT, &nodes::DOUBLE]);
+	name_roundtrip(u, 0, &nodes::FLOAT);
+	name_roundtrip(u, 1, &nodes::DOUBLE);
+}
+
+// @harness props=C02 also=C01 tier=quick timeout=1800
+// @bound union [bytes, string]: for both branches, offered name -> lookup -> same branch (table built by the real PerTypeLookup::new)
+#[kani::proof]
+#[kani::unwind(22)]
+#[kani::stub(alloc::fmt::format, crate::verif::stub_format)]
+fn c02_union_names_bytes_string() {
+	crate::verif::union_node!(u = [&nodes::BYTES, &nodes::STRING]);
+	name_roundtrip(u, 0, &nodes::BYTES);
+	name_roundtrip(u, 1, &nodes::STRING);
+}
+
+// @harness props=C02 also=C01 tier=thorough timeout=1800
+// @bound union [uuid, date]: for both branches, offered name -> lookup -> same branch (table built by the real PerTypeLookup::new)
+#[kani::proof]
+#[kani::unwind(22)]
+#[kani::stub(alloc::fmt::format, crate::verif::stub_format)]
+fn c02_union_names_uuid_date() {
+	crate::verif::union_node!(u = [&nodes::UUID, &nodes::DATE]);
+	name_roundtrip(u, 0, &nodes::UUID);
+	name_roundtrip(u, 1, &nodes::DATE);
+}
+
+// @harness props=C02 also=C01 tier=thorough timeout=1800
+// @bound union [time_millis, time_micros]: for both branches, offered name -> lookup -> same branch (table built by the real PerTypeLookup::new)
+#[kani::proof]
+#[kani::unwind(22)]
+#[kani::stub(alloc::fmt::format, crate::verif::stub_format)]
+fn c02_union_names_timemillis_timemicros() {
+	crate::verif::union_node!(u = [&nodes::TIME_MILLIS, &nodes::TIME_MICROS]);
+	name_roundtrip(u, 0, &nodes::TIME_MILLIS);
+	name_roundtrip(u, 1, &nodes::TIME_MICROS);
+}
+
+// @harness props=C02 also=C01 tier=thorough timeout=1800
+// @bound union [ts_millis, ts_micros]: for both branches, offered name -> lookup -> same branch (table built by the real PerTypeLookup::new)
+#[kani::proof]
+#[kani::unwind(22)]
+#[kani::stub(alloc::fmt::format, crate::verif::stub_format)]
+fn c02_union_names_tsmillis_tsmicros() {
+	crate::verif::union_node!(u = [&nodes::TS_MILLIS, &nodes::TS_MICROS]);
+	name_roundtrip(u, 0, &nodes::TS_MILLIS);
+	name_roundtrip(u, 1, &nodes::TS_MICROS);
+}
+
+// @harness props=C02 also=C01 tier=thorough timeout=1800
+// @bound union [big_decimal, null]: for both branches, offered name -> lookup -> same branch (table built by the real PerTypeLookup::new)
+#[kani::proof]
+#[kani::unwind(22)]
+#[kani::stub(alloc::fmt::format, crate::verif::stub_format)]
+fn c02_union_names_bigdecimal_null() {
+	crate::verif::union_node!(u = [&nodes::BIG_DECIMAL, &nodes::NULL]);
+	name_roundtrip(u, 0, &nodes::BIG_DECIMAL);
+	name_roundtrip(u, 1, &nodes::NULL);
+}
+
+// @harness props=C02 also=C01 tier=quick timeout=1800 finding=F5
+// @bound union [map<long>, duration]: the duration branch (offered as "Duration")
+#[kani::proof]
+#[kani::unwind(22)]
+#[kani::stub(alloc::fmt::format, crate::verif::stub_format)]
+fn c02_union_names_duration() {
+	crate::verif::stack_node!(m = nodes::map_of(&nodes::LONG));
+	crate::verif::union_node!(u = [m, &nodes::DURATION]);
+	name_roundtrip(u, 0, m);
+	name_roundtrip(u, 1, &nodes::DURATION);
+}
+
+// @harness props=C02 also=C01 tier=thorough timeout=1800
+// @bound union [array<long>, decimal(bytes)]: unnamed kinds by type name
+#[kani::proof]
+#[kani::unwind(22)]
+#[kani::stub(alloc::fmt::format, crate::verif::stub_format)]
+fn c02_union_names_array_decimal() {
+	crate::verif::stack_node!(a = nodes::array_of(&nodes::LONG));
+	crate::verif::stack_node!(d = nodes::dec_bytes(0));
+	crate::verif::union_node!(u = [a, d]);
+	name_roundtrip(u, 0, a);
+	name_roundtrip(u, 1, d);
+}
+
+// @harness props=C02 also=C01 tier=quick timeout=1800
+// @bound union [enum e, fixed f]: named kinds by (full)name
+#[kani::proof]
+#[kani::unwind(22)]
+#[kani::stub(alloc::fmt::format, crate::verif::stub_format)]
+fn c02_union_names_enum_fixed() {
+	crate::verif::enum_node!(e = "e", None; ["a", "b"]);
+	crate::verif::stack_node!(f = nodes::fixed_node(2));
+	crate::verif::union_node!(u = [e, f]);
+	name_roundtrip(u, 0, e);
+	name_roundtrip(u, 1, f);
+}
+
+// @harness props=C02 also=C01 tier=thorough timeout=1800
+// @bound union [null, record n.r]: record branch by fullname
+#[kani::proof]
+#[kani::unwind(22)]
+#[kani::stub(alloc::fmt::format, crate::verif::stub_format)]
+fn c02_union_names_record_decfixed() {
+	crate::verif::record_node!(r = "n.r", Some(1); [("a", &nodes::LONG)]);
+	crate::verif::union_node!(u = [&nodes::NULL, r]);
+	name_roundtrip(u, 0, &nodes::NULL);
+	name_roundtrip(u, 1, r);
+}
+
+// =============================================================================================
+// C01: direct round trips through the REAL serializer and the REAL deserializer (cross-check of the
+// compositional argument: C02 cells say Ok => specification bytes, C03 says specification bytes => value)
+
+use crate::ser::verif::sz::{ser_to, StrSrc};
+
+// @harness props=C01 tier=quick timeout=900
+// @bound long: every i64; int: every i32: decode(encode(v)) == v and every byte is consumed
+#[kani::proof]
+#[kani::unwind(13)]
+#[kani::stub(alloc::fmt::format, crate::verif::stub_format)]
+fn c01_rt_long_int() {
+	let v: i64 = kani::any();
+	let (r, out) = ser_to::<12, _>(&nodes::LONG, &v, false);
+	assert!(r.is_ok(), "c01_rt_long: serialization failed");
+	std::mem::forget(r);
+	let (b, used) = de_slice::<i64>(&nodes::LONG, out.bytes());
+	kani::cover!(v == i64::MIN);
+	match &b {
+		Ok(x) => assert!(*x == v && used == out.len, "c01_rt_long: round trip changed the value"),
+		Err(_) => assert!(false, "c01_rt_long: own output rejected"),
+	}
+	std::mem::forget(b);
+	let w: i32 = kani::any();
+	let (r, out) = ser_to::<12, _>(&nodes::INT, &w, false);
+	assert!(r.is_ok(), "c01_rt_int: serialization failed");
+	std::mem::forget(r);
+	let (b, used) = de_slice::<i32>(&nodes::INT, out.bytes());
+	match &b {
+		Ok(x) => assert!(*x == w && used == out.len, "c01_rt_int: round trip changed the value"),
+		Err(_) => assert!(false, "c01_rt_int: own output rejected"),
+	}
+	std::mem::forget(b);
+}
+
+// @harness props=C01 tier=quick timeout=900
+// @bound float / double: every bit pattern (NaN payloads included) survives the round trip bit-exactly; boolean
+#[kani::proof]
+#[kani::unwind(10)]
+#[kani::stub(alloc::fmt::format, crate::verif::stub_format)]
+fn c01_rt_floats_bool() {
+	let fb: u32 = kani::any();
+	let (r, out) = ser_to::<8, _>(&nodes::FLOAT, &f32::from_bits(fb), false);
+	assert!(r.is_ok());
+	std::mem::forget(r);
+	let (b, used) = de_slice::<f32>(&nodes::FLOAT, out.bytes());
+	match &b {
+		Ok(x) => assert!(x.to_bits() == fb && used == 4, "c01_rt_float: bits changed"),
+		Err(_) => assert!(false, "c01_rt_float: own output rejected"),
+	}
+	std::mem::forget(b);
+	let db: u64 = kani::any();
+	let (r, out) = ser_to::<8, _>(&nodes::DOUBLE, &f64::from_bits(db), false);
+	assert!(r.is_ok());
+	std::mem::forget(r);
+	let (b, used) = de_slice::<f64>(&nodes::DOUBLE, out.bytes());
+	match &b {
+		Ok(x) => assert!(x.to_bits() == db && used == 8, "c01_rt_double: bits changed"),
+		Err(_) => assert!(false, "c01_rt_double: own output rejected"),
+	}
+	std::mem::forget(b);
+	let t: bool = kani::any();
+	let (r, out) = ser_to::<8, _>(&nodes::BOOLEAN, &t, false);
+	assert!(r.is_ok());
+	std::mem::forget(r);
+	let (b, _) = de_slice::<bool>(&nodes::BOOLEAN, out.bytes());
+	match &b {
+		Ok(x) => assert!(*x == t, "c01_rt_bool: changed"),
+		Err(_) => assert!(false, "c01_rt_bool: own output rejected"),
+	}
+	std::mem::forget(b);
+}
+
+// @harness props=C01 tier=quick timeout=900
+// @bound bytes of 0..=4 symbolic bytes (serde_bytes presentation) and fixed(3): byte-exact round trip, borrowed result points into the encoded slice
+#[kani::proof]
+#[kani::unwind(8)]
+#[kani::stub(alloc::fmt::format, crate::verif::stub_format)]
+fn c01_rt_bytes_fixed() {
+	crate::verif::stack_node!(f3 = nodes::fixed_node(3));
+	let content: [u8; 4] = kani::any();
+	let n: usize = kani::any();
+	kani::assume(n <= 4);
+	let (r, out) = ser_to::<8, _>(&nodes::BYTES, &SBytes(&content[..n]), false);
+	assert!(r.is_ok());
+	std::mem::forget(r);
+	let enc = out.bytes();
+	let (b, used) = de_slice::<BBytes>(&nodes::BYTES, enc);
+	match &b {
+		Ok(x) => {
+			assert!(used == enc.len() && x.0.len() == n, "c01_rt_bytes: length changed");
+			let mut i = 0;
+			while i < n {
+				assert!(x.0[i] == content[i], "c01_rt_bytes: content changed");
+				i += 1;
+			}
+			assert!(n == 0 || x.0.as_ptr() == enc[1..].as_ptr(), "c01_rt_bytes: not borrowed from the input");
+		}
+		Err(_) => assert!(false, "c01_rt_bytes: own output rejected"),
+	}
+	std::mem::forget(b);
+	let (r, out) = ser_to::<8, _>(f3, &SBytes(&content[..3]), false);
+	assert!(r.is_ok());
+	std::mem::forget(r);
+	let (b, used) = de_slice::<BBytes>(f3, out.bytes());
+	match &b {
+		Ok(x) => assert!(used == 3 && x.0.len() == 3 && x.0[0] == content[0] && x.0[1] == content[1] && x.0[2] == content[2], "c01_rt_fixed: changed"),
+		Err(_) => assert!(false, "c01_rt_fixed: own output rejected"),
+	}
+	std::mem::forget(b);
+}
+
+// @harness props=C01 tier=quick timeout=900
+// @bound decimal(bytes, scale 0) from every i64 and decimal(fixed 8): read back with the i128 hint == the same number; duration tuple round trip
+#[kani::proof]
+#[kani::unwind(19)]
+#[kani::stub(alloc::fmt::format, crate::verif::stub_format)]
+fn c01_rt_decimal_duration() {
+	crate::verif::stack_node!(db = nodes::dec_bytes(0));
+	crate::verif::stack_node!(df = nodes::dec_fixed(8, 0));
+	let v: i64 = kani::any();
+	let (r, out) = ser_to::<24, _>(db, &v, false);
+	assert!(r.is_ok());
+	std::mem::forget(r);
+	let (b, used) = de_slice::<I128Hint>(db, out.bytes());
+	kani::cover!(v == 128);
+	match &b {
+		Ok(x) => assert!(x.0 == v as i128 && used == out.len, "c01_rt_decimal_bytes: number changed"),
+		Err(_) => assert!(false, "c01_rt_decimal_bytes: own output rejected"),
+	}
+	std::mem::forget(b);
+	let (r, out) = ser_to::<24, _>(df, &v, false);
+	assert!(r.is_ok());
+	std::mem::forget(r);
+	let (b, used) = de_slice::<I128Hint>(df, out.bytes());
+	match &b {
+		Ok(x) => assert!(x.0 == v as i128 && used == 8, "c01_rt_decimal_fixed: number changed"),
+		Err(_) => assert!(false, "c01_rt_decimal_fixed: own output rejected"),
+	}
+	std::mem::forget(b);
+	let (m, d, ms): (u32, u32, u32) = (kani::any(), kani::any(), kani::any());
+	let (r, out) = ser_to::<16, _>(&nodes::DURATION, &DurTuple(m, d, ms), false);
+	assert!(r.is_ok());
+	std::mem::forget(r);
+	let (b, _) = de_slice::<DurTuple>(&nodes::DURATION, out.bytes());
+	match &b {
+		Ok(x) => assert!(x.0 == m && x.1 == d && x.2 == ms, "c01_rt_duration: changed"),
+		Err(_) => assert!(false, "c01_rt_duration: own output rejected"),
+	}
+	std::mem::forget(b);
+}
+
+// @harness props=C01 tier=quick timeout=1200
+// @bound array<long> of 0..=2 elements (all i64 values) presented as a sequence with exact length hint: element-exact round trip
+#[kani::proof]
+#[kani::unwind(13)]
+#[kani::stub(alloc::fmt::format, crate::verif::stub_format)]
+fn c01_rt_array_long() {
+	crate::verif::stack_node!(arr = nodes::array_of(&nodes::LONG));
+	let mut src = Seq::<i64, 2>::default();
+	src.items = kani::any();
+	let n: usize = kani::any();
+	kani::assume(n <= 2);
+	src.len = n;
+	let (r, out) = ser_to::<24, _>(arr, &src, false);
+	assert!(r.is_ok(), "c01_rt_array: serialization failed");
+	std::mem::forget(r);
+	let (b, used) = de_slice::<Seq<i64, 2>>(arr, out.bytes());
+	kani::cover!(n == 2);
+	match &b {
+		Ok(x) => {
+			assert!(x.len == n && used == out.len, "c01_rt_array: length changed");
+			assert!((n < 1 || x.items[0] == src.items[0]) && (n < 2 || x.items[1] == src.items[1]), "c01_rt_array: element changed");
+		}
+		Err(_) => assert!(false, "c01_rt_array: own output rejected"),
+	}
+	std::mem::forget(b);
+}
+
+// @harness props=C01 tier=quick timeout=900
+// @bound enum {a,b,cc}: each symbol presented as str reads back as the same symbol
+#[kani::proof]
+#[kani::unwind(8)]
+#[kani::stub(alloc::fmt::format, crate::verif::stub_format)]
+fn c01_rt_enum() {
+	crate::verif::enum_node!(en = "e", None; ["a", "b", "cc"]);
+	let (r, out) = ser_to::<4, _>(en, &StrSrc("cc"), false);
+	assert!(r.is_ok());
+	std::mem::forget(r);
+	let (b, _) = de_slice::<OStr<2>>(en, out.bytes());
+	match &b {
+		Ok(x) => assert!(x.0.len == 2 && x.0.buf[0] == b'c' && x.0.buf[1] == b'c', "c01_rt_enum: symbol changed"),
+		Err(_) => assert!(false, "c01_rt_enum: own output rejected"),
+	}
+	std::mem::forget(b);
+	let (r, out) = ser_to::<4, _>(en, &StrSrc("a"), false);
+	assert!(r.is_ok());
+	std::mem::forget(r);
+	let (b, _) = de_slice::<OStr<2>>(en, out.bytes());
+	match &b {
+		Ok(x) => assert!(x.0.len == 1 && x.0.buf[0] == b'a', "c01_rt_enum: symbol changed"),
+		Err(_) => assert!(false, "c01_rt_enum: own output rejected"),
+	}
+	std::mem::forget(b);
+}
